@@ -10,6 +10,14 @@ CLAIMED = {
              text="Each helper is executed symbolically on the real bitops.c / constexpr.h for ALL 2^32 (functions) resp. 2^64 (macros) arguments in one SAT query and compared with a bit-at-a-time reference; a width-bounded solver verdict, not a proof-assistant proof. Canary mutants must be refuted in every run.",
              note="Trusted: cbmc 6.11 + minisat/kissat, the 4 reference loops in harness/c16.c, x86-64 integer model. Compile-time evaluation is covered for goto-cc and gcc only (385 folded instances).",
              ref="C16"),
+ "C17": dict(technique="IR-to-SMT encoding of rand31_r (clang IR, Int theory with explicit mod 2^32, z3 5.1) over all states; bit-precise cbmc/kissat query in the thorough tier",
+             text="rand31_r's compiler IR is translated instruction by instruction to SMT-LIB and the negated Park-Miller equation is shown unsatisfiable for every state 1..2^31-2 at once; the encoding is validated in each run on concrete seeds against the natively compiled function; thorough adds the bit-precise SAT query on the C source.",
+             note="Trusted: clang-14 IR as the meaning of rand.c, vt/ir2smt.py (validated per run), z3 5.1; full period rests on the cited multiplicative order of 16807.",
+             ref="C17", engine="E3-ir2smt"),
+ "C19": dict(technique="one inductive step of the real decoder from every state, symbolic ghost positions (cbmc, SAT) + all input histories of length 12/16 from reset",
+             text="The decoder is a finite machine: one symbolic step from an arbitrary state related to ghost positions (true, latched) by the representation invariant, for every next input including bounce and two-bit jumps, plus the base case, covers histories of any length; bounded histories from reset keep the invariant honest.",
+             note="Trusted: cbmc 6.11 + minisat, the ghost model in harness/c19.c (Gray-code rule, latch at state 0).",
+             ref="C19"),
 }
 NA = {}
 
@@ -38,6 +46,8 @@ m = {
  "engines": [
    {"name": "E1-cbmc", "path": "vt/core.py", "serves_properties": [i for i in ids if i in CLAIMED and CLAIMED[i].get("engine", "E1-cbmc") == "E1-cbmc"],
     "kind_free_text": "goto-cc + cbmc 6.11 bounded symbolic execution of the real C translation units, harnesses in harness/, SAT back ends minisat/kissat; counterexamples replayed natively (gcc, ASan+UBSan)"},
+   {"name": "E3-ir2smt", "path": "vt/ir2smt.py", "serves_properties": ["C17"],
+    "kind_free_text": "clang-14 LLVM IR of a loop-free integer kernel -> SMT-LIB (Int, explicit mod 2^k, interval-guided quotient/remainder variables) -> z3 5.1"},
  ],
  "checks": checks,
  "not_applicable": na,
